@@ -52,6 +52,25 @@ impl<'de> Deserialize<'de> for SeqKeyPairs {
 }
 
 fn main() {
+    // 6. `!Variant payload` reached through an alias: the payload's use site is lost
+    #[derive(Deserialize, Debug)]
+    enum E6 {
+        Unit,
+        New(Spanned<String>),
+    }
+    let src = "- &e !New px\n- Unit\n- *e\n";
+    let v: Vec<E6> = serde_saphyr::from_str(src).unwrap();
+    if let E6::New(s) = &v[2] {
+        println!(
+            "6. source {src:?}: payload of item 2 ({:?}): referenced line {} col {} / defined line {} col {}  (expected referenced = the `*e` token at line 3 col 3; `- &e {{New: px}}` + `*e` gives that)",
+            s.value,
+            s.referenced.line(),
+            s.referenced.column(),
+            s.defined.line(),
+            s.defined.column()
+        );
+    }
+    let _ = E6::Unit;
     // 5. reader input: multi-byte text in a comment shifts every later character offset
     let src = "# é\nx\n";
     let v: Spanned<String> = serde_saphyr::from_reader(std::io::Cursor::new(src.as_bytes())).unwrap();
